@@ -156,6 +156,18 @@ let run_op (op : string) (r : rd) : unit =
   | "sd_trace" -> let s = get_sdict r in let ops = get_list r get_sdop in
                   put_list (put_res put_sdict) (SDict.sd_trace s ops)
   | "sd_order" -> put_sdict (SDict.sd_order (get_sdict r))
+  | "to_string_plain" -> put_str (Layout.to_string_plain (get_kvs r))
+  | "foam_to_string_plain" -> put_str (Layout.foam_to_string_plain (get_kvs r))
+  | "to_string_sd" -> put_str (Layout.to_string_sd (get_sdict r))
+  | "foam_to_string_sd" -> put_str (Layout.foam_to_string_sd (get_sdict r))
+  | "lex" -> let c = get_bool r in let d = get_str r in let n = get_int r in let t = get_str r in
+             let lx = Lexer.lex c d n t in
+             put_list put_str lx.Lexer.lxd_tokens; sp (); put_int lx.Lexer.lxd_count; sp ();
+             put_tab put_str lx.Lexer.lxd_lit
+  | "parse_tokens" -> put_res (fun d -> put_tree (Value.Dict d)) (TokParser.parse_tokens (get_list r get_str))
+  | "parse_string" -> let c = get_bool r in let d = get_str r in let n = get_int r in let t = get_str r in
+             put_res (fun p -> put_sdict p.TokParser.pr_sd; sp (); put_int p.TokParser.pr_count)
+               (TokParser.parse_string c d n t)
   | _ -> raise (Bad ("op:" ^ op))
 
 let () =
